@@ -8,7 +8,7 @@
    [step w p q]: some line of the table of p denotes q.  [reach_plus w p q]: one or more steps. *)
 From Eupsv Require Import Base.Base Model.Graph Proofs.GraphLib Proofs.GraphWalk Proofs.GraphListing
      Proofs.GraphLayers Proofs.GraphTarjan Proofs.GraphPartition Proofs.GraphOrder
-     Proofs.GraphTarjanLib Proofs.GraphTarjanFull Proofs.GraphTotal.
+     Proofs.GraphTarjanLib Proofs.GraphTarjanFull Proofs.GraphTotal Proofs.GraphBuild.
 Open Scope string_scope.
 
 (* ------------------------------------------------------------------ completeness of the listing *)
@@ -28,7 +28,7 @@ Theorem walk_complete_topological w top fuel l :
   length w < fuel ->
   dependent_products fuel w top true = Ok l ->
   (forall q, In q (map enode l) <-> q <> top /\ reach_plus w top q) /\ NoDup (map enode l).
-Proof. exact (listing_topological node_cmp w top fuel l). Qed.
+Proof. exact (listing_topological true node_cmp w top fuel l). Qed.
 Print Assumptions walk_complete_topological.
 
 (* the recursive walk answers on every world, cyclic or not, pinned versions or not *)
@@ -74,13 +74,40 @@ Print Assumptions prepared_graph_wellformed.
 
 (* ------------------------------------------------------------------ the build order *)
 
-(* Under the negation of the signature of the open finding D16 (the closure of the top product holds
-   one version per product name), on a closure without cycles, with resolved edges that agree with
-   the declarations: every dependency has a strictly greater depth than the product that needs it.
-   Distrib.createDependencies installs in descending depth (stable), so it never meets an
+(* The second walk of getDependentProducts (D16 repaired: a name is tied to the version listed for it
+   only when one product of that name is listed, the depth is kept per product) hands topologicalSort
+   the graph of the closure of the top product, every product with the edges of its own table (self
+   dependencies dropped) - whatever the closure holds: two versions of one name, unresolved stubs,
+   cycles.  The only hypothesis is that the resolved edges given to the model agree with the
+   declarations (wf_world: what a line resolved to is declared, an explicit version that did not
+   resolve is not); the correspondence check establishes it for every generated world. *)
+Theorem topological_sort_graph_is_closure w top fuel g :
+  length w < fuel -> wf_world w -> (exists es, node_table w top = Some es) ->
+  topo_graph fuel w top = Ok g ->
+  (forall a b, gedge g a b <-> closure w top a /\ step w a b /\ a <> b) /\
+  (forall n, In n (gkeys g) -> closure w top n) /\
+  (forall n, reach_plus w top n -> In n (gkeys g)).
+Proof.
+  intros Hf Hw Ht Hg. destruct (topo_graph_closure w top fuel g Hf Hw Hg Ht) as [H1 H2 H3 _]. auto.
+Qed.
+Print Assumptions topological_sort_graph_is_closure.
+
+(* Every dependency has a strictly greater depth than the listed product that needs it, unless the
+   two need each other (they lie on a common cycle, where no order exists).  No hypothesis on the
+   closure: it may hold two versions of one product name (D16 on the pinned tree) and cycles.
+   Distrib.createDependencies installs in descending depth (stable), so outside cycles it never meets an
    uninstalled dependency.  Stubs (unresolved dependencies) are ordered like everything else. *)
+Theorem build_order_safe_outside_cycles w top fuel l :
+  length w < fuel -> wf_world w ->
+  dependent_products fuel w top true = Ok l ->
+  forall x y, In x l -> In y l -> step w (enode x) (enode y) ->
+    ~ reach_plus w (enode y) (enode x) -> edepth x < edepth y.
+Proof. exact (build_order_general w top fuel l). Qed.
+Print Assumptions build_order_safe_outside_cycles.
+
+(* on a closure without cycles every edge between listed products is ordered *)
 Theorem build_order_safe w top fuel l :
-  length w < fuel -> wf_world w -> one_version_per_name w top -> acyclic_from w top ->
+  length w < fuel -> wf_world w -> acyclic_from w top ->
   dependent_products fuel w top true = Ok l ->
   forall x y, In x l -> In y l -> step w (enode x) (enode y) -> edepth x < edepth y.
 Proof. exact (build_order w top fuel l). Qed.
@@ -89,20 +116,21 @@ Print Assumptions build_order_safe.
 (* the topological listing is in ascending depth ... *)
 Theorem listing_ascending fuel w top l :
   dependent_products fuel w top true = Ok l -> Sorted.StronglySorted depth_le l.
-Proof. exact (listing_sorted node_cmp fuel w top l). Qed.
+Proof. exact (listing_sorted true node_cmp fuel w top l). Qed.
 Print Assumptions listing_ascending.
 
-(* ... hence every product is listed after all the listed products that depend on it *)
+(* ... hence every product is listed after all the listed products that depend on it (and do not lie on
+   a cycle with it) *)
 Corollary listed_after_its_users w top fuel l l1 y l2 x :
-  length w < fuel -> wf_world w -> one_version_per_name w top -> acyclic_from w top ->
+  length w < fuel -> wf_world w ->
   dependent_products fuel w top true = Ok l ->
-  l = l1 ++ y :: l2 -> In x l2 -> ~ step w (enode x) (enode y).
+  l = l1 ++ y :: l2 -> In x l2 -> ~ reach_plus w (enode y) (enode x) -> ~ step w (enode x) (enode y).
 Proof.
-  intros Hf Hw Ho Ha D El Ix S.
+  intros Hf Hw D El Ix Nc S.
   assert (Iy : In y l) by (rewrite El; apply in_or_app; right; left; reflexivity).
   assert (Ix' : In x l) by (rewrite El; apply in_or_app; right; right; exact Ix).
-  pose proof (build_order w top fuel l Hf Hw Ho Ha D x y Ix' Iy S) as Hlt.
-  pose proof (listing_sorted node_cmp fuel w top l D) as Hs. rewrite El in Hs.
+  pose proof (build_order_general w top fuel l Hf Hw D x y Ix' Iy S Nc) as Hlt.
+  pose proof (listing_sorted true node_cmp fuel w top l D) as Hs. rewrite El in Hs.
   apply sorted_suffix in Hs. inversion Hs as [|? ? _ Hall]. subst.
   rewrite Forall_forall in Hall. specialize (Hall x Ix). unfold depth_le in Hall.
   apply (PeanoNat.Nat.lt_irrefl (edepth x)). eapply PeanoNat.Nat.lt_le_trans; eauto.
@@ -148,6 +176,21 @@ Theorem topological_sort_graph_keys_distinct fuel w top g :
   topo_graph fuel w top = Ok g -> NoDup (gkeys g).
 Proof. exact (topo_graph_keys_nodup fuel w top g). Qed.
 Print Assumptions topological_sort_graph_keys_distinct.
+
+(* ... and, that graph being the closure of the top product with every product's own edges,
+   getDependentProducts(checkCycles=True) raises its RuntimeError exactly when two different products
+   of the closure (the top product included) need each other - two versions of one name or not: *)
+Theorem cycle_reported_exactly w top fuel g :
+  length w < fuel -> wf_world w -> topo_graph fuel w top = Ok g ->
+  proper_cycle w top -> check_cycles g = Err Refused.
+Proof. exact (world_cycle_reported w top fuel g). Qed.
+Print Assumptions cycle_reported_exactly.
+
+Theorem no_cycle_no_report w top fuel g :
+  length w < fuel -> wf_world w -> topo_graph fuel w top = Ok g ->
+  ~ proper_cycle w top -> exists NL, check_cycles g = Ok NL.
+Proof. exact (world_without_cycle_passes w top fuel g). Qed.
+Print Assumptions no_cycle_no_report.
 
 (* ------------------------------------------------------------------ Tarjan's algorithm, in general *)
 
@@ -205,26 +248,28 @@ Theorem topological_listing_total w top fuel :
     Sorted.StronglySorted depth_le l.
 Proof.
   intros Hf. destruct (dependent_products_total w top fuel Hf) as [l E]. exists l. split; [exact E|].
-  destruct (listing_topological node_cmp w top fuel l Hf E) as [H1 H2]. split; [exact H1|]. split; [exact H2|].
-  exact (listing_sorted node_cmp fuel w top l E).
+  destruct (listing_topological true node_cmp w top fuel l Hf E) as [H1 H2]. split; [exact H1|]. split; [exact H2|].
+  exact (listing_sorted true node_cmp fuel w top l E).
 Qed.
 Print Assumptions topological_listing_total.
 
-(* on closures without cycles (and one version per product name: the negation of D16) the listing
-   exists and is a safe build order: build_order_safe and listed_after_its_users without the premise
-   that the call returned *)
+(* on closures without cycles the listing exists and is a safe build order: build_order_safe and
+   listed_after_its_users without the premise that the call returned *)
 Theorem topological_listing_total_on_dags w top fuel :
-  length w < fuel -> wf_world w -> one_version_per_name w top -> acyclic_from w top ->
+  length w < fuel -> wf_world w -> acyclic_from w top ->
   exists l, dependent_products fuel w top true = Ok l /\
     (forall q, In q (map enode l) <-> q <> top /\ reach_plus w top q) /\ NoDup (map enode l) /\
     Sorted.StronglySorted depth_le l /\
     (forall x y, In x l -> In y l -> step w (enode x) (enode y) -> edepth x < edepth y) /\
     (forall l1 y l2 x, l = l1 ++ y :: l2 -> In x l2 -> ~ step w (enode x) (enode y)).
 Proof.
-  intros Hf Hw Ho Ha. destruct (topological_listing_total w top fuel Hf) as [l [E [H1 [H2 H3]]]].
+  intros Hf Hw Ha. destruct (topological_listing_total w top fuel Hf) as [l [E [H1 [H2 H3]]]].
   exists l. split; [exact E|]. split; [exact H1|]. split; [exact H2|]. split; [exact H3|]. split.
-  - exact (build_order_safe w top fuel l Hf Hw Ho Ha E).
-  - intros l1 y l2 x. exact (listed_after_its_users w top fuel l l1 y l2 x Hf Hw Ho Ha E).
+  - exact (build_order_safe w top fuel l Hf Hw Ha E).
+  - intros l1 y l2 x El Ix S. apply (listed_after_its_users w top fuel l l1 y l2 x Hf Hw E El Ix); [|exact S].
+    intros R. assert (Cx : closure w top (enode x)).
+    { right. apply H1. apply in_map. rewrite El. apply in_or_app. right. right. exact Ix. }
+    apply (Ha _ Cx). eapply rp_more; [apply step_is_stepP, S | exact R].
 Qed.
 Print Assumptions topological_listing_total_on_dags.
 
@@ -363,14 +408,14 @@ Definition w_diamond : world :=
     pr "e" "1" [] ].
 
 Example build_order_hypotheses_inhabited :
-  wf_world w_diamond /\ one_version_per_name w_diamond (nd "a" "1") /\ acyclic_from w_diamond (nd "a" "1") /\
+  wf_world w_diamond /\ acyclic_from w_diamond (nd "a" "1") /\
   dependent_products 6 w_diamond (nd "a" "1") true
   = Ok [ (nd "b" "1", false, 2); (nd "c" "2", true, 2); (nd "d" "1", false, 3);
          (nd "e" "1", false, 4); (stub "ghost" None, true, 4) ].
 Proof.
-  assert (H : wf_world w_diamond /\ one_version_per_name w_diamond (nd "a" "1") /\ acyclic_from w_diamond (nd "a" "1")).
-  { eapply (hyps_by_computation 6); [vm_compute; repeat constructor | vm_compute; reflexivity | | |]; vm_compute; reflexivity. }
-  destruct H as [H1 [H2 H3]]. split; [exact H1|]. split; [exact H2|]. split; [exact H3|]. vm_compute. reflexivity.
+  assert (H : wf_world w_diamond /\ acyclic_from w_diamond (nd "a" "1")).
+  { eapply (hyps_by_computation 6); [vm_compute; repeat constructor | vm_compute; reflexivity | |]; vm_compute; reflexivity. }
+  destruct H as [H1 H2]. split; [exact H1|]. split; [exact H2|]. vm_compute. reflexivity.
 Qed.
 
 (* D2 on the pinned tree: a 1 needs c 1 and c 2; pvsort compared two Props objects *)
@@ -397,9 +442,10 @@ Example layer_sort_pinned_refuted :
   = Ok [ (nd "b" "1", false, 2); (stub "ghost" None, true, 3); (stub "ghost" (Some "1"), true, 3) ].
 Proof. split; vm_compute; reflexivity. Qed.
 
-(* D16 (open finding): depths are kept per product NAME and the second walk pins one version per
-   name.  p5 1 needs p3 3 (which needs p2 3) and p4 2 (which needs p3 1): p3 3 is listed with depth
-   3 and its dependency p2 3 with depth 2, i.e. BEFORE the product that needs it. *)
+(* D16 on the pinned tree: depths were kept per product NAME and the second walk pinned one version
+   per name.  p5 1 needs p3 3 (which needs p2 3) and p4 2 (which needs p3 1): the closure of p5 1
+   holds two versions of p3.  The hypotheses of build_order_safe are inhabited by it, and the repaired
+   code orders it: p3 3 before its dependency p2 3, p3 1 (a leaf, needed by p4 2) last with p2 3. *)
 Definition w_d16 : world :=
   [ pr "p5" "1" [ed "p3" (Some "3") (Some "3") false; ed "p4" (Some "2") (Some "2") false];
     pr "p3" "3" [ed "p2" (Some "3") (Some "3") false];
@@ -407,13 +453,70 @@ Definition w_d16 : world :=
     pr "p4" "2" [ed "p3" (Some "1") (Some "1") false];
     pr "p3" "1" [] ].
 
-Example order_refuted_two_versions :
+Example build_order_two_versions_inhabited :
+  wf_world w_d16 /\ acyclic_from w_d16 (nd "p5" "1") /\
+  (exists l, closure_list 7 w_d16 (nd "p5" "1") = Some l /\ two_versions_b l = true /\
+             ~ one_version_per_name w_d16 (nd "p5" "1")) /\
+  dependent_products 7 w_d16 (nd "p5" "1") true
+  = Ok [ (nd "p3" "3", false, 2); (nd "p4" "2", false, 2); (nd "p2" "3", false, 3); (nd "p3" "1", false, 3) ].
+Proof.
+  assert (H : wf_world w_d16 /\ acyclic_from w_d16 (nd "p5" "1")).
+  { eapply (hyps_by_computation 7); [vm_compute; repeat constructor | vm_compute; reflexivity | |]; vm_compute; reflexivity. }
+  destruct H as [H1 H2]. split; [exact H1|]. split; [exact H2|]. split; [|vm_compute; reflexivity].
+  eexists. split; [vm_compute; reflexivity|]. split; [vm_compute; reflexivity|].
+  intros Ho.
+  assert (R3 : reach_plus w_d16 (nd "p5" "1") (nd "p3" "3")).
+  { apply rp_one. eexists _, (ed "p3" (Some "3") (Some "3") false). split; [reflexivity|]. split; [left; reflexivity | reflexivity]. }
+  assert (R1 : reach_plus w_d16 (nd "p5" "1") (nd "p3" "1")).
+  { eapply rp_more; [eexists _, (ed "p4" (Some "2") (Some "2") false); split; [reflexivity|]; split; [right; left; reflexivity | reflexivity]|].
+    apply rp_one. eexists _, (ed "p3" (Some "1") (Some "1") false). split; [reflexivity|]. split; [left; reflexivity | reflexivity]. }
+  specialize (Ho (nd "p3" "3") (nd "p3" "1") (or_intror R3) (or_intror R1) eq_refl). discriminate.
+Qed.
+
+(* the pinned code on the same world: p3 is pinned to version 1 in the second walk, the edge p3 3 -> p2 3 is
+   lost, p3 3 is listed with depth 3 and its dependency p2 3 with depth 2, i.e. BEFORE the product that
+   needs it *)
+Example order_refuted_pinned :
   exists l dx dy,
-    dependent_products 7 w_d16 (nd "p5" "1") true = Ok l /\
+    dependent_products_byname_pinned 7 w_d16 (nd "p5" "1") true = Ok l /\
     step w_d16 (nd "p3" "3") (nd "p2" "3") /\
     In (nd "p3" "3", false, dx) l /\ In (nd "p2" "3", false, dy) l /\ dy < dx.
 Proof.
   eexists _, 3, 2. split; [vm_compute; reflexivity|]. split.
   - exists [ed "p2" (Some "3") (Some "3") false], (ed "p2" (Some "3") (Some "3") false). repeat split. left. reflexivity.
   - simpl. intuition.
+Qed.
+
+(* D16, cycle variant: p4 1 and p5 1 need each other; the listing of p2 1 also holds the stub p4 9, which
+   the pinned code took as THE version of p4 in the second walk: every p4 line then denoted a stub and
+   checkCycles passed.  The repaired code reports the cycle (cycle_reported_exactly applies: the closure
+   holds two products named p4). *)
+Definition w_d16_cycle : world :=
+  [ pr "p2" "1" [ed "p4" (Some "1") (Some "1") false; ed "p4" (Some "9") None true];
+    pr "p4" "1" [ed "p5" (Some "1") (Some "1") false];
+    pr "p5" "1" [ed "p4" None (Some "1") false] ].
+
+Example cycle_lost_refuted_pinned :
+  wf_world w_d16_cycle /\ proper_cycle w_d16_cycle (nd "p2" "1") /\
+  (exists g, topo_graph_byname_pinned 5 w_d16_cycle (nd "p2" "1") = Ok g /\ exists NL, check_cycles g = Ok NL) /\
+  (exists g, topo_graph 5 w_d16_cycle (nd "p2" "1") = Ok g /\ check_cycles g = Err Refused).
+Proof.
+  assert (Hw : wf_world w_d16_cycle).
+  { intros n v es e T Ie. apply table_of_In in T.
+    assert (Hb : wf_world_b w_d16_cycle = true) by (vm_compute; reflexivity).
+    unfold wf_world_b in Hb. rewrite forallb_forall in Hb. specialize (Hb _ T). simpl in Hb.
+    rewrite forallb_forall in Hb. specialize (Hb e Ie). split.
+    - intros r Er. rewrite Er in Hb. exact Hb.
+    - intros v' Er Ev. rewrite Er, Ev in Hb. apply Bool.negb_true_iff, Hb. }
+  assert (S45 : step w_d16_cycle (nd "p4" "1") (nd "p5" "1")).
+  { eexists _, (ed "p5" (Some "1") (Some "1") false). split; [reflexivity|]. split; [left; reflexivity | reflexivity]. }
+  assert (S54 : step w_d16_cycle (nd "p5" "1") (nd "p4" "1")).
+  { eexists _, (ed "p4" None (Some "1") false). split; [reflexivity|]. split; [left; reflexivity | reflexivity]. }
+  assert (Hc : proper_cycle w_d16_cycle (nd "p2" "1")).
+  { exists (nd "p4" "1"), (nd "p5" "1"). split.
+    - right. apply rp_one. eexists _, (ed "p4" (Some "1") (Some "1") false). split; [reflexivity|]. split; [left; reflexivity | reflexivity].
+    - split; [discriminate|]. split; apply rp_one, step_is_stepP; assumption. }
+  split; [exact Hw|]. split; [exact Hc|]. split.
+  - eexists. split; [vm_compute; reflexivity|]. eexists. vm_compute. reflexivity.
+  - eexists. split; [vm_compute; reflexivity|]. vm_compute. reflexivity.
 Qed.
